@@ -75,6 +75,26 @@ RunsNthFrom(rs, i, k) ==
   ELSE LET n == rs[i][3] - rs[i][2] + 1 IN
        IF k < n THEN <<rs[i][2] + k, rs[i][1]>> ELSE RunsNthFrom(rs, i + 1, k - n)
 RunsNth(rs, k) == RunsNthFrom(rs, 1, k)
+\* A sequence of points `seq` (as pulled with next()) observed through other Iterator methods (record q as written by
+\* the harness' iter_protocol): count, last, size_hint, an nth walk, two calls after the end, and mixed consumption
+\* <<k, count, last, fold count, fold first, fold last, skip(k).count()>> after k calls of next()
+SeqProtoFails(seq, q) ==
+  LET n == Len(seq)
+      At(k) == IF k < n THEN seq[k + 1] ELSE <<>> IN
+       (IF q.cnt = n THEN {} ELSE {"count_differs_from_next"})
+  \cup (IF q.last = (IF n = 0 THEN <<>> ELSE seq[n]) THEN {} ELSE {"last_differs_from_next"})
+  \cup (IF q.lo <= n /\ (q.hi = -1 \/ q.hi >= n) THEN {} ELSE {"size_hint_excludes_length"})
+  \cup (IF q.mlo <= n - q.k /\ (q.mhi = -1 \/ q.mhi >= n - q.k) THEN {} ELSE {"size_hint_excludes_remaining_length"})
+  \cup (IF /\ Len(q.walk) = (IF n \div q.stride <= 4096 THEN n \div q.stride ELSE 4096)
+           /\ \A j \in 1..Len(q.walk) : q.walk[j][1] = j * q.stride - 1 /\ <<q.walk[j][2], q.walk[j][3]>> = At(q.walk[j][1])
+        THEN {} ELSE {"nth_differs_from_next"})
+  \cup (IF q.after = <<1, 1>> THEN {} ELSE {"yields_again_after_the_end"})
+  \cup (IF \A j \in 1..Len(q.mixed) :
+            LET mx == q.mixed[j]  k == mx[1]  rest == IF k < n THEN n - k ELSE 0
+                lastP == IF rest = 0 THEN <<>> ELSE seq[n]
+                firstP == IF rest = 0 THEN <<>> ELSE seq[k + 1]
+            IN mx[2] = rest /\ mx[3] = lastP /\ mx[4] = rest /\ mx[5] = firstP /\ mx[6] = lastP /\ mx[7] = rest
+        THEN {} ELSE {"rest_after_next_differs"})
 \* membership of a point in a run-encoded set
 InRuns(rs, p) == \E i \in 1..Len(rs) : rs[i][1] = p[2] /\ rs[i][2] <= p[1] /\ p[1] <= rs[i][3]
 \* runs of the row-major enumeration of a set of points S lying inside the rectangle r
